@@ -406,8 +406,13 @@ KERNELS = {
 
 
 def run_kernels(ctx, ids: List[str], pid: str):
-    done = set()
     for k in ids:
+        ctx.guard(_run_kernel, ctx, k, pid)
+
+
+def _run_kernel(ctx, k: str, pid: str):
+    done = set()
+    for k in [k]:
         if k in done:
             continue
         done.add(k)
